@@ -4,6 +4,7 @@ SPEC = {
     "pkg": "c02",
     "tests": [
         {"name": "TestSeqFinite", "quick": 4000, "thorough": 400000, "shards_quick": 2, "shards_thorough": 8, "timeout": 1500},
+        {"name": "TestSeqDense", "quick": 320, "thorough": 16000, "shards_quick": 4, "shards_thorough": 16, "timeout": 1500},
         {"name": "TestConcFinite", "quick": 600, "thorough": 40000, "shards_quick": 3, "shards_thorough": 8, "timeout": 1500,
          "race_thorough": True},
         {"name": "TestSeqUnlimited", "quick": 400, "thorough": 16000, "shards_quick": 4, "shards_thorough": 16, "timeout": 1500},
@@ -16,7 +17,7 @@ SPEC = {
     ],
     "rule": ("rapid-generated schedule trees (depth <= 3, <= 5 children; leaves once/const/line/step/instance_step/unlimited, zero-token "
              "and empty parts anywhere; in the finite tests also instance_step parts whose `to` is below `from` - omitted (0), anywhere below, or "
-             "less than a step below: no step fits, `from` tokens at once, the part finishes at its own start - alone and before further parts) judged against manual chaining of separately drained parts. TestSeqFinite: scripted Next/Left "
+             "less than a step below: no step fits, `from` tokens at once, the part finishes at its own start - alone and before further parts) judged against manual chaining of separately drained parts. TestSeqDense (added after seeded defect C02/m16): composites whose first one or two parts are dense constant-rate parts (const, flat line, two-level step; 5e4-2e6 rps incl. rates that divide no whole number of nanoseconds, 3000-40000 tokens) in front of once / const / line parts - whatever a part's per-token arithmetic accumulates shows where the next part begins: times to one caller never decrease, the finish is not before the last token. TestSeqFinite: scripted Next/Left "
              "by one caller in virtual time, optional on-finish wrapper, config or constructor path. TestConcFinite: 2-8 free-running "
              "goroutines, 4 rounds per case, multiset + linearisability windows for Left. TestSeqUnlimited/TestConcUnlimited: real time, "
              "1-4 ms parts, callers wait for each token as coreutil.Waiter does; TestSeqUnlimited also draws the start mode (explicit Start, or - as the engine does - "
@@ -32,7 +33,7 @@ SPEC = {
              "composite's lock-free yield points (hook) is dictated by a drawn choice list. Non-trivial = >= 2 token-bearing parts and "
              "(nesting depth >= 2 or a zero-token part [seq]; any [conc]; >= 2 tokens [implicit start]; an unknown-length part that is not first [unlimited]; "
              "a lock-upgrade point reached [interleavings]); distinct = hash of tree+script(+choices)."),
-    "floors": {"TestSeqUnlimited/unknown_not_first": 0.15, "TestSeqFinite/zero_token_part": 0.2, "TestConcFinite/left_callers": 0.3,
+    "floors": {"TestSeqDense/dense_part_interval_fraction_ge_half_ns": 0.3, "TestSeqUnlimited/unknown_not_first": 0.15, "TestSeqFinite/zero_token_part": 0.2, "TestConcFinite/left_callers": 0.3,
                "TestConcFinite/callers_ge_4": 0.3, "TestInterleavings/next_upgrade_contended": 0.1,
                "TestInterleavings/left_upgrade_point": 0.05, "TestImplicitStart/single_elementary_profile": 0.3,
                "TestImplicitStart/callers_ge_4": 0.3, "TestSeqUnlimited/left_negative_seen": 0.1,
